@@ -426,7 +426,43 @@ def regress(tier):
             yield from json.load(fh)
 
 
-def all_sim(tier, which=("regress", "flows", "junctions", "timed", "pops", "combined")):
-    g = dict(regress=regress, flows=flows, junctions=junctions, timed=timed, pops=pops, combined=combined)
+VIAS = ("pickle", "deepcopy", "read_first")
+
+
+def via(tier):
+    """Other routes to an integrated model (build.World.run): the built model is pickled / deep-copied and the copy integrated (what the optimiser
+    does with every model), or every reported quantity of the built model is read before integration.  Structures: the whole `pops`, `timed` and
+    `regress` spaces and every 9th model of `combined` (all of it in the thorough tier) at dt = 0.25 (thorough: every dt), plus models with an
+    output-only parameter whose function depends on time alone."""
+    import copy
+
+    def base():
+        for sp in (regress, pops, timed):
+            for spec in sp(tier):
+                if tier == "thorough" or spec.get("tag") == "regress" or abs(spec["sim"][2] - 0.25) < 1e-12:
+                    yield spec
+        k = 0
+        for spec in combined(tier):
+            if tier == "thorough" or abs(spec["sim"][2] - 0.25) < 1e-12:
+                k += 1
+                if tier == "thorough" or k % 9 == 0:
+                    yield spec
+        for dt in (0.25, 1.0):
+            for prog in (False, True):
+                spec = combined_spec(dt, prog=prog)
+                spec["pars"].append(dict(name="disc", fmt="number", fn="exp(-0.03*(t-2000))"))
+                spec["pars"].append(dict(name="dvac", fmt="number", fn="disc*vac"))
+                yield spec
+
+    for spec in base():
+        for v in VIAS:
+            s2 = copy.deepcopy(spec)
+            s2["via"] = v
+            s2["tag"] = "via"
+            yield s2
+
+
+def all_sim(tier, which=("regress", "flows", "junctions", "timed", "pops", "combined", "via")):
+    g = dict(regress=regress, flows=flows, junctions=junctions, timed=timed, pops=pops, combined=combined, via=via)
     for w in which:
         yield from g[w](tier)
